@@ -30,21 +30,19 @@ BUDGET_S = {'quick': 90, 'thorough': 840}
 GRACE_S = 60
 
 SIZES = {
-    'quick': dict(np=1600, fn=180, str=7000, alg=2500, unitpy=1200, useq=1500, np_steps=14, fn_steps=11),
-    'thorough': dict(np=52000, fn=9000, str=220000, alg=40000, unitpy=25000, useq=30000, np_steps=16, fn_steps=12),
+    'quick': dict(np=1400, fn=140, str=5000, alg=2000, unitpy=1000, useq=1200, np_steps=14, fn_steps=11),
+    'thorough': dict(np=40000, fn=4000, str=150000, alg=40000, unitpy=25000, useq=25000, np_steps=16, fn_steps=12),
 }
 CHUNK = dict(np=100, fn=10, str=500, alg=250, unitpy=100, useq=150)
 
 
 def plan(tier, seed):
     z = SIZES[tier]
-    units = []
-    # expensive families first so that round-robin sharding balances them
-    for fam in ('fn', 'np', 'unitpy', 'str', 'alg', 'useq'):
+    units = [dict(family='table'), dict(family='unitpy_prefixes')]
+    # cheap families first (a deadline under heavy machine load then cuts the expensive programs, which finalize reports)
+    for fam in ('alg', 'unitpy', 'useq', 'str', 'np', 'fn'):
         n, c = z[fam], CHUNK[fam] * (4 if tier == 'thorough' else 1)
         units += [dict(family=fam, start=i, stop=min(n, i + c)) for i in range(0, n, c)]
-    units.append(dict(family='table'))
-    units.append(dict(family='unitpy_prefixes'))
     units.append(dict(family='extension'))
     return units
 
@@ -180,9 +178,13 @@ def run_units(units, ctx):
     z = SIZES[ctx.tier]
     res.add('dispatch_keys', ','.join(sorted(e.tablekeys)))
     units = sorted(units, key=lambda u: u['family'] == 'extension')   # the global-table extension runs last in its worker
+    import time
+    tstart = time.time()
     for u in units:
         fam = u['family']
-        if ctx.expired():
+        t0 = time.time()
+        res.maximum('worker_wall_s', round(t0 - tstart, 1))
+        if ctx.expired() and fam not in ('table', 'unitpy_prefixes', 'extension'):    # the three sweeps are bounded (< 1 s each)
             res.count('units_skipped_deadline')
             res.count(f'skipped_deadline/{fam}')
             continue
@@ -212,6 +214,9 @@ def run_units(units, ctx):
             # generator / model self-consistency failures are harness matters
             res.count('harness_assertions')
             res.note(f'{fam}: harness assertion {ex} {traceback.format_exc()[-500:]}')
+        res.count(f'wall_ms/{fam}', int(1000 * (time.time() - t0)))
+    res.maximum('worker_wall_s', round(time.time() - tstart, 1))
+    res.maximum('worker_cpu_s', round(time.process_time(), 1))
     return res
 
 
@@ -293,7 +298,7 @@ def finalize(m, tier, seed):
         strings=dict(generated=c.get('strings', 0), parsed_ok=c.get('strings_parsed_ok', 0), dimensionless=c.get('strings_dimensionless', 0),
                      fractional_power=c.get('strings_with_fractional_power', 0), mul_after_div=c.get('strings_with_mul_after_div', 0),
                      by_factors=sub('string_factors/'), typed_ok=c.get('typed_constructor_ok', 0),
-                     typed_mismatch_presented=c.get('typed_constructor_mismatch_presented', 0), stringly_roundtrips=c.get('stringly_roundtrips', 0),
+                     typed_mismatch_presented=c.get('typed_constructor_mismatch_presented', 0), typed_mismatch_rejected=c.get('typed_constructor_mismatch_rejected', 0), stringly_roundtrips=c.get('stringly_roundtrips', 0),
                      divisions=c.get('string_divisions', 0), invalid_presented=c.get('invalid_strings_presented', 0),
                      invalid_rejected=c.get('invalid_strings_rejected', 0), invalid_kinds=sub('invalid_kind/')),
         unit_table=dict(entries_checked=c.get('table_entries_checked', 0), strings_checked=c.get('table_strings_checked', 0),
@@ -308,6 +313,7 @@ def finalize(m, tier, seed):
         units_sequences=dict(sequences=c.get('units_sequences', 0), definitions=c.get('units_definitions', 0),
                              collisions_presented=c.get('units_collisions_presented', 0), collisions_rejected=c.get('units_collisions_rejected', 0)),
         locate=dict(cases=sub('locate_case/'), verified=c.get('locate_verified', 0)),
+        timing=dict(slowest_worker_wall_s=m.maxima.get('worker_wall_s'), max_worker_cpu_s=m.maxima.get('worker_cpu_s'), wall_ms_by_family=sub('wall_ms/')),
         harness=dict(generator_errors=c.get('generator_errors', 0), step_errors=c.get('harness_step_errors', 0), assertions=c.get('harness_assertions', 0),
                      fn_context_failed=c.get('fn_context_failed', 0), skipped_deadline=sub('skipped_deadline/')),
     )
